@@ -160,6 +160,8 @@ bool Json::Private::readToken()
                 break;
               }
               break;
+            case '\0':
+              return syntaxError(pos, "Unexpected end of file"), false;
             default:
               value.append('\\');
               value.append(*pos.pos);
